@@ -69,6 +69,9 @@ DbalOk(e) ==
                     Len(P[p].t) = 3 /\ Descending(P[p].t) /\ InRange(P[p].t, e.n))
        /\ Check(tid, 1, "triple-is-unranking-of-index", \A p \in 1..Len(P) : RankIs(P[p].t, P[p].ind))
        /\ Check(tid, 1, "triples-distinct", Cardinality({P[p].t : p \in 1..Len(P)}) = Len(P))
+       \* whatever the call un-ranked on the way (it need not un-rank anything): each (index, tuple) pair is the bijection's
+       /\ Check(tid, 1, "unranked-pairs-follow-the-bijection", \A u \in 1..Len(e.unranked) :
+                    Len(e.unranked[u].t) = 3 /\ Descending(e.unranked[u].t) /\ InRange(e.unranked[u].t, e.n) /\ RankIs(e.unranked[u].t, e.unranked[u].ind))
        /\ Check(tid, 1, "all-triples-when-budget-covers",
                 total <= e.budget => Cardinality({P[p].t : p \in 1..Len(P)}) = total)
 
